@@ -10,6 +10,10 @@ tree (Gen.MsgpSites) has that shape (`Model.MsgpSite.siteOK`).
                            assumption: each read of a successful prefix is paid for by a consumed byte);
   * `dec_consumes`         a successful decode consumed at least one byte (every header is ≥ 1 byte): the progress
                            argument that makes every loop of the generated code terminate;
+  * `decode_depth_bounded` n nested calls into generated decoders need n levels of the depth budget (never refilled), so with the
+                           root budget `maxDepth` (= the constant of protocol/codec.go, `depth_limit_tied`) no decode succeeds
+                           deeper than 255 nested decoder calls (`depth_bomb_rejected`); the generated code keeps that shape iff
+                           every nested call passes its own state `st` — the `call` sites of Gen.MsgpSites;
   * `dec_alloc_bounded`    every allocation the decoder REQUESTS — also on runs that fail later — is `okEv`: for a slice /
                            map `make(T, n)` the exact quantity is the header count n, and n ≤ the declared allocbound (without
                            a bound, `allocbound=-`: n ≤ 2·(2³²−1), what a 32-bit header doubled by map flattening can announce —
@@ -44,6 +48,10 @@ theorem all_sites_checked : ∀ s ∈ Gen.MsgpSites.chunks.flatten, siteOK s = t
   obtain ⟨c, hc, hsc⟩ := List.mem_flatten.mp hs
   exact List.all_eq_true.mp (Gen.MsgpSites.chunks_ok c hc) s hsc
 
+def errOfDepth : Log × Except Err (Val × Bytes) → Bool
+  | (_, .error .depth) => true
+  | _ => false
+
 /-! ## termination / progress -/
 
 /-- any run reads at most `input length + 1` times, and a successful run pays every read with a consumed byte -/
@@ -73,6 +81,45 @@ theorem empty_rejected (ty : BTy) (d : Nat) (old : Val) : ∃ e, (dec ty d old [
   cases h : (dec ty d old []).2 with
   | error e => exact ⟨e, rfl⟩
   | ok vr => rcases vr with ⟨v, r⟩; have := dec_consumes ty d old [] v r h; simp at this
+
+/-! ## bounded recursion -/
+
+/-- `n` nested calls into generated decoders around a type -/
+def wrap : Nat → BTy → BTy
+  | 0, t => t
+  | n+1, t => .named (wrap n t)
+
+/-- every call into a nested generated decoder costs one level of the depth budget and the budget is never refilled (the
+model hands `d - 1` down, as the generated code hands its decremented `st` down — tie: every `call` site of Gen.MsgpSites
+`passes`): a decode that gets through `n` nested calls had at least `n` levels.  With the root budget `maxDepth` = 255 no
+successful decode is nested deeper than 255 decoder calls, whatever the input -/
+theorem decode_depth_bounded : ∀ (n : Nat) (t : BTy) (d : Nat) (old : Val) (bs : Bytes) (v : Val) (r : Bytes),
+    (BoundedDecoder.dec (wrap n t) d old bs).2 = .ok (v, r) → n ≤ d
+  | 0, _, _, _, _, _, _, _ => Nat.zero_le _
+  | n+1, t, 0, old, bs, v, r, h => by
+    simp only [wrap] at h
+    unfold BoundedDecoder.dec at h
+    simp [P.fail] at h
+  | n+1, t, d+1, old, bs, v, r, h => by
+    simp only [wrap] at h
+    unfold BoundedDecoder.dec at h
+    have := decode_depth_bounded n t d old bs v r h
+    omega
+
+/-- the hypothesis is met: two nested calls around a bool decode with two levels (and fail with one) -/
+example : (∃ v r, (BoundedDecoder.dec (wrap 2 .bool) 2 (.bool false) [0xc3]).2 = .ok (v, r)) ∧
+    errOfDepth (BoundedDecoder.dec (wrap 2 .bool) 1 (.bool false) [0xc3]) = true := ⟨⟨_, _, rfl⟩, rfl⟩
+
+/-- a root decode nested deeper than the limit fails with `ErrMaxDepthExceeded` before it reads the inner value -/
+theorem depth_bomb_rejected (t : BTy) (old : Val) (bs : Bytes) (n : Nat) (h : maxDepth < n) :
+    ∀ v r, (BoundedDecoder.dec (wrap n t) maxDepth old bs).2 ≠ .ok (v, r) := by
+  intro v r hok
+  have := decode_depth_bounded n t maxDepth old bs v r hok
+  omega
+
+/-- the limit of the model is the constant the current tree sets (`protocol/codec.go`: `msgp.DefaultUnmarshalState.AllowableDepth
+= maxMsgpDecodeDepth`, re-extracted on every run into Gen.MsgpSites.maxDepth) -/
+theorem depth_limit_tied : Gen.MsgpSites.maxDepth = maxDepth := by decide
 
 /-! ## allocation -/
 
